@@ -33,16 +33,17 @@ ConfigSets == {<<>>, <<P(4, "x.yaml")>>, <<P(3, "x.yaml"), P(4, "x.yaml")>>, <<P
 DE2 == {"none", "vv", "name"}
 DE3 == {"none", "vv", "file", "name"} \cup (IF Profiles THEN {"prof"} ELSE {})
 
-Dim == [l1 : {"L0", "L1"}, l2 : LNames, l3 : LNames, l4 : {"L0", "L1"}, de2 : DE2, de3 : DE3, cf : CFs, cpn : CPNs, vv : VVs, cprof : CProfs, cfg : ConfigSets]
+\* the values of each dimension of the world (the worlds are built from the default one: the full product is too large for TLC
+\* to hold as one set)
+DimVals(k) == CASE k = "l1" -> {"L0", "L1"} [] k = "l2" -> LNames [] k = "l3" -> LNames [] k = "l4" -> {"L0", "L1"}
+                [] k = "de2" -> DE2 [] k = "de3" -> DE3 [] k = "cf" -> CFs [] k = "cpn" -> CPNs [] k = "vv" -> VVs
+                [] k = "cprof" -> CProfs [] k = "cfg" -> ConfigSets
 Default == [l1 |-> "L0", l2 |-> "L3", l3 |-> "L0", l4 |-> "L0", de2 |-> "vv", de3 |-> "none", cf |-> [f |-> Unset, s |-> Unset], cpn |-> Unset, vv |-> Unset, cprof |-> Unset, cfg |-> <<>>]
 Fields == {"l1", "l2", "l3", "l4", "de2", "de3", "cf", "cpn", "vv", "cprof", "cfg"}
-Diff(a, b) == {k \in Fields : a[k] # b[k]}
 \* pairs of world dimensions that interact in the code
-Interact == {{"l2", "l3"}, {"l3", "de3"}, {"de3", "cf"}, {"cf", "cfg"}, {"cf", "l2"}, {"de3", "cpn"}, {"de2", "de3"}, {"de3", "vv"}, {"l1", "l2"}, {"l3", "cfg"}, {"l4", "cfg"}}
-Chosen(d) == CASE Level = 0 -> Cardinality(Diff(d, Default)) <= 1
-               [] Level = 1 -> Cardinality(Diff(d, Default)) <= 1 \/ Diff(d, Default) \in Interact
-               [] OTHER -> TRUE
-
+Interact == {{"l2", "l3"}, {"l3", "de3"}, {"de3", "cf"}, {"cf", "cfg"}, {"cf", "l2"}, {"de3", "cpn"}, {"de2", "de3"}, {"de3", "vv"}, {"l1", "l2"}, {"l3", "cfg"}, {"l4", "cfg"}, {"de3", "cprof"}, {"cprof", "vv"}}
+Set1(d, k, v) == [x \in Fields |-> IF x = k THEN v ELSE d[x]]
+\* Level 0: one factor at a time;  Level >= 1: plus every pair of values of two interacting dimensions
 OsOf(d) == LET a == IF d.cf.f.set THEN [k \in {"COMPOSE_FILE"} |-> d.cf.f.v] ELSE [k \in {} |-> ""]
                b == IF d.cf.s.set THEN Over(a, [k \in {"COMPOSE_PATH_SEPARATOR"} |-> d.cf.s.v]) ELSE a
                c == IF d.cpn.set THEN Over(b, [k \in {"COMPOSE_PROJECT_NAME"} |-> d.cpn.v]) ELSE b
@@ -55,7 +56,10 @@ World(d) ==
    dotenv |-> de, os |-> OsOf(d), configs |-> d.cfg]
 
 Seed == [act |-> "new"]
-Init == \E d \in Dim : Chosen(d) /\ w = World(d) /\ o = New(d.cfg) /\ tr = Seed /\ steps = 0
+Init == \/ \E k \in Fields : \E v \in DimVals(k) : LET d == Set1(Default, k, v) IN w = World(d) /\ o = New(d.cfg) /\ tr = Seed /\ steps = 0
+        \/ /\ Level >= 1
+           /\ \E pr \in Interact : \E k1 \in pr : \E k2 \in pr \ {k1} : \E v1 \in DimVals(k1) : \E v2 \in DimVals(k2) :
+                LET d == Set1(Set1(Default, k1, v1), k2, v2) IN w = World(d) /\ o = New(d.cfg) /\ tr = Seed /\ steps = 0
 
 Names == {"explicit-1", "Bad.Name", ""}
 ExplicitEnvs == {[k \in {"VV"} |-> "ex"], [k \in {"COMPOSE_FILE"} |-> "../compose.yaml"], [k \in {"VV", "COMPOSE_PROJECT_NAME"} |-> IF k = "VV" THEN "" ELSE "from-explicit-env"]}
